@@ -13,6 +13,35 @@
 3. The recorded op logs (a rotating sample of the matching replays, and EVERY mismatching one) are validated
    by TLC against spec/MatryerMockTrace.tla = the contract.  Verdict = contract rejection of a real op log.
    Mismatch with the code-shaped model that the contract accepts = drift note.
+
+COVERAGE TABLE (statement clause / quantifier dimension -> what explores it -> what is still a single point or absent)
+  methods & signatures   28 shapes (arity 0-3 x variadic x results 0-3) for method A; B fixed `B(x int) int`; a third method
+                         X(p int) sorting between A and B that the histories never call (frame: only ResetCalls may empty it).
+                         Single point: B's and X's signatures; > 3 methods; methods whose names collide with generated members
+                         (ACalls/ResetCalls/lockA as METHOD names) do not compile -> C01.
+  parameter names        10 sets (plain, unnamed, `_`, `_` mixed with generated-name look-alikes, initialisms, case pair,
+                         non-ASCII, template locals, callInfo, mock); method names: exported, unexported, initialism-like,
+                         case twins (in-package mocks through generated method-expression shims).  Absent: keywords-as-names.
+  argument/result values 6 type sets: ints (same-typed: transpositions compile), mixed, rich (*V, []int, interface{}, named
+                         results, map result), refs (named slice, map, pointer: identity through MFunc writes), vals (struct,
+                         array, interface-with-methods by value; func/chan/array results -> zero values under stub-impl),
+                         tparam (generic interface C[T any] instantiated with int).  Single point: one instantiation type;
+                         no chan/func PARAMETERS; no constraint other than any (D13 territory, C01).
+  where methods come from direct or through an embedded interface (class dimension `embed`).  Absent: embedding from another package.
+  options                skip-ensure x stub-impl x with-resets, each in its own file AND (one class per shape) all four
+                         skip/stub combinations of ONE interface in ONE file via `configs:`, both orders.  with-resets only at
+                         package level (where the template reads it).
+  MFunc                  nil, table function F1 (also writes through reference-like args), F2 (thorough), re-entrant FR (calls A
+                         again and reads BCalls() inside), panicking FP; initial value and later assignment.  Absent: MFunc that
+                         calls a DIFFERENT mocked method; MFunc replaced while running.
+  histories              all sequences <= 3 (quick) / 4 (thorough) ops for every shape, <= 5 / 6 for a seed-rotated subset, over
+                         call(2 tags, variadic lengths 0/1/2) / setfunc / ResetACalls / ResetBCalls / ResetCalls; `stale` flag keeps
+                         read -> reset -> call(other args) -> re-inspect in the explored set; <= 3-4 records per log.
+  observations           reply or recovered panic (message must contain the ACTUAL field name), every MFunc invocation's view,
+                         MCalls() of A, B, X after every op by position, nil-ness of MFunc fields, a second mock instance,
+                         every earlier MCalls() result re-inspected (retained slices), caller's own argument objects afterwards.
+  left open on purpose   whether the nil-MFunc panic is recorded; reply of a panicking MFunc; field names; records aliasing vs
+                         copying reference-like arguments; absence of reset methods without with-resets.
 """
 import json
 import os
